@@ -33,8 +33,10 @@ SHAPES = {
     "gold": (["price of gold"], "const_money", 1800.0, "usd"),
     "shy": (["{NUMBER:x} widgets", "magic number"], "decline", 0.0, ""),
     "again": (["{NUMBER:x} again"], "echo", 0.0, ""),
+    # a field restricted to one unit family (the family name contains a hyphen)
+    "flag": (["{DYNAMIC_TYPE:q:metric-length} flagged"], "const_number", 777.0, ""),
 }
-PROBES = ["3 widgets", "5 gadgets", "2 plus 5", "magic number", "price of gold", "7 again", "1 + 1"]
+PROBES = ["3 widgets", "5 gadgets", "2 plus 5", "magic number", "price of gold", "7 again", "1 + 1", "3 km flagged", "3 kb flagged"]
 
 
 def add_op(name, shape, lang="en"):
@@ -67,7 +69,11 @@ def probe_expect(regs, text):
         a, b = text.split(" plus ")
         return first(lambda pats, kind, k: ("Number", float(a) + float(b)) if kind == "sum" else None)
     if text == "magic number":
-        return first(lambda pats, kind, k: ("Number", k) if kind == "const_number" else None)
+        return first(lambda pats, kind, k: ("Number", k) if (kind == "const_number" and "magic number" in pats) else None)
+    if text == "3 km flagged":
+        return first(lambda pats, kind, k: ("Number", k) if any("flagged" in p for p in pats) else None)
+    if text == "3 kb flagged":
+        return ("DynamicType", None)          # a memory quantity never matches the length-restricted field
     if text == "price of gold":
         return first(lambda pats, kind, k: ("Money", k) if kind == "const_money" else None)
     return "default"
